@@ -81,6 +81,9 @@ def run(ck):
     # the decoder's decisions are those of the reference
     from .. import condparity as _cp
     ck.floor("SIB/ref-conditions", _cp.check(ck, P, "SIB/ref-conditions", only={"inflate.c:inflate", "inffast_tpl.h:INFLATE_FAST", "inftrees.c:zng_inflate_table"}), 60)
+    # every part of the output reaches the check value: a valid gzip stream is not rejected for some chunkings
+    from . import c08 as _c08x
+    _c08x.extend_siblings(ck, P)
     inflate_table_rules(ck, P)
     # a valid stream may use a 15-bit distance code with 13 extra bits: the fast loops must have (or fetch) 28 bits there
     from . import c02
